@@ -126,29 +126,43 @@ Fixpoint list_eqb {A B} (e : A -> B -> bool) (a : list A) (b : list B) : bool :=
   | _, _ => false
   end.
 
+(* the full span of a header digest: the numeric part, and (epoch, timestamp, compact target) at its
+   start and at its end; RFC 0044: a parent spans from the left child's start to the right child's end *)
+Definition span := (N * N * N)%type.
+Definition fdig := (ndig * span * span)%type.
+Definition fmerge (l r : fdig) : fdig :=
+  let '(ln, ls, _) := l in let '(rn, _, re) := r in (nmerge ln rn, ls, re).
+(* the variant that takes the end compact target from the right child's START *)
+Definition fmerge_end_target_from_start (l r : fdig) : fdig :=
+  let '(ln, ls, _) := l in let '(rn, (_, _, rst), (ree, ret, _)) := r in (nmerge ln rn, ls, (ree, ret, rst)).
+Definition span_eqb (a b : span) : bool :=
+  let '(a1, a2, a3) := a in let '(b1, b2, b3) := b in N.eqb a1 b1 && N.eqb a2 b2 && N.eqb a3 b3.
+Definition fdig_eqb (a b : fdig) : bool :=
+  let '(an, as_, ae) := a in let '(bn, bs, be) := b in ndig_eqb an bn && span_eqb as_ bs && span_eqb ae be.
+
 (* a history of main-chain changes; after each the first mmr_size(tip+1)
    positions of COLUMN_CHAIN_ROOT_MMR and the root for every n <= tip were read *)
 Record mcase := mkMCase {
-  mc_genesis : ndig;
+  mc_genesis : fdig;
   (* (number of common leaves incl. genesis, attached digests, observed nodes, observed roots for n = 1..) *)
-  mc_steps : list (N * list ndig * list ndig * list ndig) }.
+  mc_steps : list (N * list fdig * list fdig * list fdig) }.
 
 Definition nseq (n : N) : list N := map N.of_nat (seq 0 (N.to_nat n)).
 
-Fixpoint mcheck (store : N -> option ndig) (steps : list (N * list ndig * list ndig * list ndig)) : bool :=
+Fixpoint mcheck (store : N -> option fdig) (steps : list (N * list fdig * list fdig * list fdig)) : bool :=
   match steps with
   | [] => true
   | (nc, att, nodes, roots) :: steps' =>
-    match reorg_store ndig nmerge store nc att with
+    match reorg_store fdig fmerge store nc att with
     | None => false
     | Some st' =>
       let n' := (nc + N.of_nat (length att))%N in
-      list_eqb (fun a b => match a with Some x => ndig_eqb x b | None => false end)
+      list_eqb (fun a b => match a with Some x => fdig_eqb x b | None => false end)
                (map st' (nseq (mmr_size n'))) nodes &&
-      list_eqb (fun a b => match a with Some x => ndig_eqb x b | None => false end)
-               (map (fun k => root_from_store ndig nmerge st' (N.succ k)) (nseq n')) roots &&
+      list_eqb (fun a b => match a with Some x => fdig_eqb x b | None => false end)
+               (map (fun k => root_from_store fdig fmerge st' (N.succ k)) (nseq n')) roots &&
       mcheck st' steps'
     end
   end.
 Definition check_mcase (c : mcase) : bool :=
-  mcheck (write_at ndig (fun _ => None) 0%N [mc_genesis c]) (mc_steps c).
+  mcheck (write_at fdig (fun _ => None) 0%N [mc_genesis c]) (mc_steps c).
